@@ -375,6 +375,16 @@ def encode_bits(name, ty, v):
     return out
 
 
+def as_form(v, form, depth=0):
+    """the Python value handed to bind(): sequences as tuples, as lists, or alternating by depth"""
+    if isinstance(v, list):
+        seq = [as_form(x, form, depth + 1) for x in v]
+        if form == "list" or (form == "mixed" and depth % 2 == 0):
+            return seq
+        return tuple(seq)
+    return v
+
+
 class _T:
     def __class_getitem__(cls, k):
         return cls
@@ -465,7 +475,7 @@ class Gen:
                     vals = dict(vals)
                     t0 = dict(u["params"]).get(n0, "bool")
                     vals[n0] = (2 ** (width(t0) or 3)) if not isinstance(vals[n0], list) else vals[n0][:1]
-        a = {"target": u["id"], "values": vals, "order": order}
+        a = {"target": u["id"], "values": vals, "order": order, "form": r.choice(["tuple", "list", "mixed"])}
         if fault:
             a["fault"] = fault
         self.add("bind", a, [u["id"]])
@@ -607,7 +617,7 @@ def run_segment(plan, ctx, detail=False, table=None):
                 return _compile_callable(op, dict(a, via="plain", defs=a["defs"]), o, tmpdir)
             return qlassf(a["src"], defs=[o[i] for i in a["defs"]], to_compile=a["to_compile"], bool_optimizer=_opt(a["opt"]))
         if op["kind"] == "bind":
-            return o[a["target"]].bind(**{n: to_py(a["values"][n]) for n in a["order"]})
+            return o[a["target"]].bind(**{n: as_form(a["values"][n], a.get("form", "tuple")) for n in a["order"]})
         raise RuntimeError(op["kind"])
 
     def run_one(op, o, flist):
